@@ -76,6 +76,7 @@ class Problem:
         model = stubs.Model(1, 1 if self.linear else 0)
         mesh = stubs.Mesh(B, self.n, vol=self.vol)
         disc = stubs.RHSStub(B, self.n, 1, fn=self.rhs)
+        disc.model, disc.mesh = model, mesh          # what a real discretisation object exposes
         prob = self
 
         def calc_timestep(f, cond):
